@@ -1,6 +1,42 @@
 // ---- C17 incremental extractor: views, assumed contracts of its two callees, step specification
+pub open spec fn type_byte(t: Http2FrameType) -> u8 {
+    match t {
+        Http2FrameType::Data => 0, Http2FrameType::Headers => 1, Http2FrameType::Priority => 2, Http2FrameType::RstStream => 3,
+        Http2FrameType::Settings => 4, Http2FrameType::PushPromise => 5, Http2FrameType::Ping => 6, Http2FrameType::GoAway => 7,
+        Http2FrameType::WindowUpdate => 8, Http2FrameType::Continuation => 9, Http2FrameType::Unknown(b) => b,
+    }
+}
 pub open spec fn frame_view(f: Http2Frame) -> FrameV {
-    FrameV { ty: 0, flags: f.flags, stream_id: f.stream_id, payload: f.payload@, length: f.length }
+    FrameV { ty: type_byte(f.frame_type), flags: f.flags, stream_id: f.stream_id, payload: f.payload@, length: f.length }
+}
+pub open spec fn frames_view(fs: Seq<Http2Frame>) -> Seq<FrameV> { Seq::new(fs.len(), |i: int| frame_view(fs[i])) }
+/// the frames of a byte string, as values determined by the bytes alone
+pub open spec fn spec_split(d: Seq<u8>, max: int) -> Seq<FrameV>
+    decreases d.len()
+{
+    if d.len() < 9 || d.len() < 9 + h2_len(d) || h2_len(d) > max { Seq::<FrameV>::empty() }
+    else {
+        seq![FrameV { ty: d[3], flags: d[4], stream_id: h2_stream(d), payload: d.subrange(9, 9 + h2_len(d)), length: h2_len(d) as u32 }]
+            + spec_split(d.subrange(9 + h2_len(d), d.len() as int), max)
+    }
+}
+pub proof fn lemma_type_byte(b: u8)
+    ensures type_byte(spec_frame_type(b)) == b,
+{}
+pub proof fn lemma_frames_view(fs: Seq<Http2Frame>, i: int, d: Seq<u8>, max: int)
+    requires 0 <= i <= fs.len(), frames_match(fs, i, d, max),
+    ensures frames_view(fs).subrange(i, fs.len() as int) =~= spec_split(d, max),
+    decreases fs.len() - i,
+{
+    if i < fs.len() {
+        let rest = d.subrange(9 + h2_len(d), d.len() as int);
+        lemma_frames_view(fs, i + 1, rest, max);
+        lemma_type_byte(d[3]);
+        assert(frames_view(fs).subrange(i, fs.len() as int) =~= seq![frame_view(fs[i])] + frames_view(fs).subrange(i + 1, fs.len() as int));
+        assert(frame_view(fs[i]).payload =~= d.subrange(9, 9 + h2_len(d)));
+    } else {
+        assert(spec_split_count(d, max) == 0);
+    }
 }
 /// bytes occupied by the complete frames at the start of d
 pub open spec fn spec_consumed(d: Seq<u8>, max: int) -> int
@@ -19,10 +55,12 @@ pub proof fn lemma_consumed_le(d: Seq<u8>, max: int)
 }
 // ext: the Akamai fingerprint of a frame list (frame selection + string assembly + sha2): an
 // uninterpreted function of the frames (ASSUMED: extract_akamai_fingerprint is deterministic)
-pub uninterp spec fn spec_fp(frames: Seq<Http2Frame>) -> Option<AkamaiFingerprint>;
+// uninterpreted function of the frame VALUES (ASSUMED: extract_akamai_fingerprint is deterministic and
+// looks only at type, flags, stream id, payload and length of each frame)
+pub uninterp spec fn spec_fpv(frames: Seq<FrameV>) -> Option<AkamaiFingerprint>;
 #[verifier::external_body]
 pub fn extract_akamai_fingerprint(frames: &[Http2Frame]) -> (r: Option<AkamaiFingerprint>)
-    ensures r == spec_fp(frames@),
+    ensures r == spec_fpv(frames_view(frames@)),
 { unimplemented!() }
 pub open spec fn preface() -> Seq<u8> { seq![80u8, 82u8, 73u8, 32u8, 42u8, 32u8, 72u8, 84u8, 84u8, 80u8, 47u8, 50u8, 46u8, 48u8, 13u8, 10u8, 13u8, 10u8, 83u8, 77u8, 13u8, 10u8, 13u8, 10u8] }
 pub open spec fn has_preface(b: Seq<u8>) -> bool { b.len() >= 24 && b.subrange(0, 24) =~= preface() }
@@ -31,3 +69,20 @@ pub struct XState { pub buf: Seq<u8>, pub off: int, pub done: bool }
 pub open spec fn x_start(s: XState, data: Seq<u8>) -> int {
     if s.off == 0 && has_preface(s.buf + data) { 24 } else { s.off }
 }
+
+pub open spec fn skip_preface(b: Seq<u8>) -> Seq<u8> { if has_preface(b) { b.subrange(24, b.len() as int) } else { b } }
+/// one add_bytes call as a function of the state and the chunk
+pub open spec fn x_step(s: XState, data: Seq<u8>, max: int) -> (XState, Option<AkamaiFingerprint>) {
+    if s.done { (s, None) } else {
+        let b = s.buf + data;
+        let start = x_start(s, data);
+        let fd = b.subrange(start, b.len() as int);
+        let used = spec_consumed(fd, max);
+        if used > 0 {
+            let fp = spec_fpv(spec_split(fd, max));
+            (XState { buf: b, off: start + used, done: fp is Some }, fp)
+        } else { (XState { buf: b, off: s.off, done: false }, None) }
+    }
+}
+/// the one-shot fingerprint of a byte string (extract_akamai_fingerprint_from_bytes)
+pub open spec fn one_shot(b: Seq<u8>, max: int) -> Option<AkamaiFingerprint> { spec_fpv(spec_split(skip_preface(b), max)) }
